@@ -302,6 +302,19 @@ def case(ctx, i, rng):
     if env_kw_off:
         use_env = False
         ctx.count("st.env.default-on-but-call-says-env=False")
+    if channel == "argv+envcfg" and use_env and not env_kw_off and rng.random() < 0.5:
+        # crafted: the environment names the subcommand at two levels and sets one option of the inner one, the environment's
+        # config sets another option of that same inner section
+        # (options that a default config file of any level also sets are left out: their order against a config is C04's question)
+        two = [(n1, n2) for n1, c1 in tree["subs"].items() for n2, c2 in c1["subs"].items() if len(c2["opts"]) >= 2 and not c2["dcf"] and n2 not in c1["dsec"] and n1 not in tree["dsec"]]
+        if two:
+            n1, n2 = rng.choice(two)
+            c2 = tree["subs"][n1]["subs"][n2]
+            (ox, _), (oy, _) = c2["opts"][0], c2["opts"][1]
+            doc = doc_used = {n1: {n2: {ox: 3300 + rng.randrange(50)}}}
+            env = {env_prefix(()) + "SUBCOMMAND": n1, env_prefix((n1,)) + "SUBCOMMAND": n2, env_prefix((n1, n2)) + oy.upper(): str(4400 + rng.randrange(50))}
+            levels, sels = [[]], []
+            ctx.count("st.env_names_two_levels_and_env_config_sets_the_inner_section")
     if channel == "argv+envcfg":
         if not use_env or not doc or env_kw_off:
             channel = "argv+cfg"
